@@ -605,17 +605,12 @@ func randGoType(rng *rand.Rand, depth int) *goType {
 	}
 	switch r {
 	case 0, 1, 2:
-		// known-defective features of the typed universe are probed separately (nbtProbes): typed arrays of
-		// bool / uint32 do not decode back, typed arrays do not decode into Go arrays except [N]int32
+		// pointers as elements of typed arrays are refused by the encoder (an error, not a value)
 		e := randGoType(rng, depth-1)
-		for e.K == "bool" || e.K == "u32" || e.K == "ptr" { // pointers as elements of typed arrays are refused by the encoder
+		for e.K == "ptr" {
 			e = randGoType(rng, depth-1)
 		}
 		if r == 2 {
-			switch e.K {
-			case "i8", "u8", "i64", "u64":
-				e = &goType{K: "i16"}
-			}
 			return &goType{K: "array", E: e, N: 1 + rng.Intn(3)}
 		}
 		return &goType{K: "slice", E: e}
